@@ -8,8 +8,15 @@ or returned from a public function, and the result does not depend on the order 
 processes its worklist."
 
 Model: `XdslModel/Liveness.lean` (`init` = `analysis.initialize`, `run` = the `while self._worklist`
-loop with scheduler `pick`, `mark` = `propagate_if_changed(lat, lat.mark_live())`).
-Specification: `Xdsl.Liveness.Live` / `Root` / `Feeds` / `Chain` / `F` in `Lemmas/Liveness.lean`.
+loop with scheduler `pick`, `mark` = `propagate_if_changed(lat, lat.mark_live())`), including the
+`Executable` gating of `dead_code_analysis.py`: ops of a block that is not (yet) executable are
+skipped; a block marked executable before the liveness initialisation (`pre`: `DeadCodeAnalysis`
+loaded first, or the test-suite idiom) is handled by the initial walk, one marked afterwards (`post`:
+`DeadCodeAnalysis` loaded second) has all its ops enqueued by `Executable.on_update` and is handled by
+the worklist loop; other blocks are never looked at.
+Specification: `Xdsl.Liveness.Live` / `Root` / `Feeds` / `Chain` / `F` in `Lemmas/Liveness.lean`; only
+ops of blocks in `pre ∪ post` (`ExecP`) demand or forward liveness.  `LiveAll` is the same without
+the gating; the two coincide when every block is executable at some time (`AllExec`).
 `func.return` is a terminator, hence `wbd = false`: "returned from a (public) function" is an
 instance of `Root`; explicit boundary values (`seeds`, `exits`) are roots as well.
 All theorems hold for every program `p` and every scheduler `pick : Nat → List Nat → Nat`
@@ -49,7 +56,88 @@ theorem solve_spec (p : Prog) (pick : Sched) (v : Nat) :
   constructor
   · exact (solveSt_inv p pick).sound v
   · exact complete_of_wl_nil p _ (solveSt_inv p pick)
-      ((init_ready p).mono (run_le p pick _ 0 _)) (solver_terminates p pick) v
+      (run_ready p pick _ 0 _ (init_ready p) (init_inv p)) (solver_terminates p pick) v
+
+/-- **All blocks executable ⇒ the ungated statement.** If every op sits in a block that is marked
+executable at some time — before *or* after the liveness analysis is initialised, i.e. whatever the
+load order of `DeadCodeAnalysis` and `LivenessAnalysis` — the computed set is exactly the ungated
+specification `LiveAll` (every not-trivially-removable op demands its operands, every op forwards
+liveness from results to operands), under every schedule. -/
+theorem solve_spec_all_exec (p : Prog) (hall : AllExec p) (pick : Sched) (v : Nat) :
+    (solve p pick).getD v false = true ↔ LiveAll p v :=
+  (solve_spec p pick v).trans ⟨Live.toAll, LiveAll.toLive hall⟩
+
+/-- **Never-executable blocks are not analysed**: a live value is a boundary value (seed / exit) or
+an operand of an op in an executable block — "nothing in a never-executable block is marked live
+unless used from an executable one". -/
+theorem live_only_via_exec (p : Prog) (pick : Sched) (v : Nat)
+    (h : (solve p pick).getD v false = true) :
+    v ∈ p.seeds ∨ v ∈ p.exits ∨ ∃ op ∈ p.ops, ExecP p op ∧ v ∈ op.operands := by
+  have hl := (solve_spec p pick v).1 h
+  cases hl with
+  | root _ hr =>
+    rcases hr with h | h | ⟨op, hop, hex, _, hv⟩
+    · exact Or.inl h
+    · exact Or.inr (Or.inl h)
+    · exact Or.inr (Or.inr ⟨op, hop, hex, hv⟩)
+  | step _ hf _ =>
+    obtain ⟨op, hop, hex, hv, _⟩ := hf
+    exact Or.inr (Or.inr ⟨op, hop, hex, hv⟩)
+
+/-- contrapositive form: a value that is no boundary value and is used only by ops of blocks that
+never become executable stays dead, whatever those ops are -/
+theorem never_exec_dead (p : Prog) (pick : Sched) (v : Nat) (hs : v ∉ p.seeds) (he : v ∉ p.exits)
+    (hu : ∀ op ∈ p.ops, v ∈ op.operands → ¬ ExecP p op) :
+    (solve p pick).getD v false = false := by
+  cases h : (solve p pick).getD v false with
+  | false => rfl
+  | true =>
+    rcases live_only_via_exec p pick v h with h1 | h1 | ⟨op, hop, hex, hv⟩
+    · exact absurd h1 hs
+    · exact absurd h1 he
+    · exact absurd hex (hu op hop hv)
+
+/-- with no executable block at all (e.g. a function body below a module analysed with
+`DeadCodeAnalysis`) exactly the boundary values are live -/
+theorem nothing_executable (p : Prog) (hpre : p.pre = []) (hpost : p.post = []) (pick : Sched)
+    (v : Nat) :
+    (solve p pick).getD v false = true ↔ v < p.nvals ∧ (v ∈ p.seeds ∨ v ∈ p.exits) := by
+  have hno : ∀ op, ¬ ExecP p op := by
+    intro op h; unfold ExecP at h; rw [hpre, hpost] at h; simp at h
+  rw [solve_spec]
+  constructor
+  · intro h
+    cases h with
+    | root hlt hr =>
+      rcases hr with h | h | ⟨op, _, hex, _⟩
+      · exact ⟨hlt, Or.inl h⟩
+      · exact ⟨hlt, Or.inr h⟩
+      · exact absurd hex (hno op)
+    | step _ hf _ =>
+      obtain ⟨op, _, hex, _⟩ := hf
+      exact absurd hex (hno op)
+  · rintro ⟨hlt, h | h⟩
+    · exact Live.root hlt (Or.inl h)
+    · exact Live.root hlt (Or.inr (Or.inl h))
+
+/-- **Load order of the two analyses is irrelevant**: two programs that differ only in *when* their
+blocks are marked executable (`pre` = `DeadCodeAnalysis` loaded before `LivenessAnalysis`, `post` =
+after) — same set of eventually executable blocks — get the same liveness, under any two schedules. -/
+theorem load_order_independent (p q : Prog) (hn : q.nvals = p.nvals) (ho : q.ops = p.ops)
+    (hs : q.seeds = p.seeds) (he : q.exits = p.exits)
+    (hx : ∀ b, (b ∈ p.pre ∨ b ∈ p.post) ↔ (b ∈ q.pre ∨ b ∈ q.post)) (pick₁ pick₂ : Sched) :
+    solve p pick₁ = solve q pick₂ := by
+  apply List.ext_getElem (by rw [solve_length, solve_length, hn])
+  intro i h1 h2
+  have e1 := solve_spec p pick₁ i
+  have e2 := solve_spec q pick₂ i
+  rw [List.getD_eq_getElem?_getD, List.getElem?_eq_getElem h1] at e1
+  rw [List.getD_eq_getElem?_getD, List.getElem?_eq_getElem h2] at e2
+  simp only [Option.getD_some] at e1 e2
+  have e3 : Live p i ↔ Live q i :=
+    ⟨Live.mono_exec hn ho hs he (fun b => (hx b).1),
+     Live.mono_exec hn.symm ho.symm hs.symm he.symm (fun b => (hx b).2)⟩
+  exact Bool.eq_iff_iff.2 (e1.trans (e3.trans e2.symm))
 
 /-- `Live p` is a fixpoint of the specified closure operator `F p` … -/
 theorem live_fixpoint (p : Prog) (v : Nat) : Live p v ↔ F p (Live p) v := by
@@ -131,7 +219,17 @@ values 0…5; program order `A: effectful(0,1)`, `B: 0 := pure(2)`, `C: 1 := pur
 Initialisation visits D, C, B, A; A makes 0 and 1 live and enqueues B, C.  -/
 def exProg : Prog :=
   { nvals := 6
-    ops := [⟨[0, 1], [], false⟩, ⟨[2], [0], true⟩, ⟨[3], [1], true⟩, ⟨[2], [4], true⟩] }
+    ops := [⟨[0, 1], [], false, 0⟩, ⟨[2], [0], true, 0⟩, ⟨[3], [1], true, 0⟩, ⟨[2], [4], true, 0⟩]
+    pre := [0] }
+
+/-- the same body with the block marked executable only after the liveness initialisation
+(`DeadCodeAnalysis` loaded second): the walk skips everything, `on_update` enqueues all four ops -/
+def exProgPost : Prog := { exProg with pre := [], post := [0] }
+
+/-- a second block (1) that never becomes executable: its effectful op demands nothing -/
+def exProgDead : Prog :=
+  { exProg with
+    nvals := 8, ops := exProg.ops ++ [⟨[6], [], false, 1⟩, ⟨[7], [6], true, 1⟩] }
 
 example : (init exProg).wl = [1, 2] := by decide
 example : solve exProg (fun _ _ => 0) = [true, true, true, true, false, false] := by decide
@@ -140,6 +238,19 @@ example : (solveSt exProg (fun _ _ => 1)).trace.reverse = [2, 1] := by decide
 example : WF exProg := by
   refine ⟨?_, ?_, ?_⟩ <;> decide
 example : Live exProg 2 := (solve_spec exProg (fun _ _ => 0) 2).1 (by decide)
+example : (init exProgPost).wl = [0, 1, 2, 3] := by decide
+example : solve exProgPost (fun _ _ => 0) = [true, true, true, true, false, false] := by decide
+example : (solveSt exProgPost (fun _ _ => 0)).trace.reverse = [0, 1, 2, 3] := by decide
+/-- LIFO on the enqueued block: D, C, B are visited (and registered) before A makes 0 and 1 live,
+which re-enqueues B and C -/
+example : (solveSt exProgPost (fun _ wl => wl.length - 1)).trace.reverse = [3, 2, 1, 0, 2, 1] := by
+  decide
+example : solve exProgPost (fun _ _ => 3) = solve exProg (fun _ _ => 0) :=
+  load_order_independent exProgPost exProg rfl rfl rfl rfl (by intro b; simp [exProg, exProgPost]) _ _
+example : AllExec exProg ∧ AllExec exProgPost := by
+  constructor <;> (intro op hop; simp [exProg, exProgPost] at hop; rcases hop with rfl | rfl | rfl | rfl <;> simp [ExecP, exProg, exProgPost])
+example : solve exProgDead (fun _ _ => 0)
+    = [true, true, true, true, false, false, false, false] := by decide
 example : ¬ Live exProg 4 := fun h => by
   have := (solve_spec exProg (fun _ _ => 0) 4).2 h
   revert this; decide
